@@ -370,6 +370,49 @@ def interp_case(X, Y):
                 desc=f"DatedInterp: same interpolated value whether the query date or a table date is labelled {X} or {Y}")
 
 
+def ephem_order_case(X, Y):
+    """the real Ephem.__init__ puts its points in chronological order -- of the instants, whatever the labels: two points
+    g seconds apart (0 < g < 100 s, less than the offset between many pairs of scales), the earlier labelled X, the later
+    labelled Y, handed over in reverse order"""
+    def run(env, v):
+        if env.symbolic:
+            m = install(env)
+            c03.install_eop(env, m, v)
+            eph = env.mod("beyond.orbits.ephem")
+            from symx.stubs import carrier
+            t0 = c03.mk_date(env, m, v["d"], v["s"], X)
+            t1 = (t0 + STD.of(v["g"])).change_scale(Y)
+            p0 = carrier([1, 0, 0, 0, 0, 0], date=t0, frame="EME2000")
+            p1 = carrier([2, 0, 0, 0, 0, 0], date=t1, frame="EME2000")
+            e = eph.Ephem([p1, p0])
+            return {"first_is_the_earlier": e._orbits[0][0], "start": c03.instant(env, e.start) - c03.instant(env, t0),
+                    "stop": c03.instant(env, e.stop) - c03.instant(env, t1)}
+        # concrete replays run without IERS data: demonstrated with the constant offset TT - TAI = 32.184 s, the earlier point
+        # labelled with either scale
+        from beyond.orbits import Ephem, StateVector
+        from beyond.dates import Date
+        from datetime import timedelta
+        g = min(max(float(v["g"]), 1e-3), 30.0)
+        worst = {"first_is_the_earlier": 1.0, "start": 0.0, "stop": 0.0}
+        for la, lb in (("TAI", "TT"), ("TT", "TAI")):
+            a = Date(int(v["d"]), float(v["s"]), scale=la)
+            t1 = (a + timedelta(seconds=g)).change_scale(lb)
+            p0 = StateVector([1.0, 0, 0, 0, 0, 0], a, "cartesian", "EME2000")
+            p1 = StateVector([2.0, 0, 0, 0, 0, 0], t1, "cartesian", "EME2000")
+            e = Ephem([p1, p0])
+            got = {"first_is_the_earlier": float(e[0][0]), "start": (e.start - a).total_seconds(), "stop": (e.stop - t1).total_seconds()}
+            if got["first_is_the_earlier"] != 1.0 or abs(got["start"]) > 1e-6:
+                worst = got
+        return worst
+
+    def ref(env, v, out):
+        return {"first_is_the_earlier": 1, "start": 0, "stop": 0}
+    return Case(f"ephem_order/{X}-{Y}", INS + [("g", "pos")], run, ref, pre=lambda v: pre(v) + [v["g"] < 100], timeout=60, maxpaths=100,
+                tol=0, abs_tol=1e-6,
+                desc=f"Ephem([...]) sorts its points by instant: a point labelled {X} and a later one labelled {Y}, closer than the "
+                     "offset between the scales, end up in chronological order")
+
+
 def equinox_case(X, Y):
     """iau1980.equinox: the 1997 switch of the kinematic terms must be taken at one instant, whatever the label"""
     def run(env, v):
@@ -545,7 +588,7 @@ def all_cases(tier):
     cs = []
     for X, Y in pairs:
         cs += [sgp4_case(X, Y), sgp4beta_case(X, Y), tle_epoch_case(X, Y), kepler_case("kepler", X, Y), kepler_case("j2", X, Y),
-               cw_case(X, Y), interp_case(X, Y), equinox_case(X, Y), ccsds_case("opm", "kvn", X, Y), ccsds_case("opm", "xml", X, Y),
+               cw_case(X, Y), interp_case(X, Y), ephem_order_case(X, Y), ephem_order_case(Y, X), equinox_case(X, Y), ccsds_case("opm", "kvn", X, Y), ccsds_case("opm", "xml", X, Y),
                ccsds_case("oem", "kvn", X, Y), ccsds_case("oem", "xml", X, Y)]
     cs += [eop_day_case("UTC", "TT"), eop_day_case("TAI", "UTC")]
     return cs
